@@ -28,6 +28,7 @@ type FieldSpec struct {
 	NotNull       bool     // C20: not null
 	Extra         []string // C20: further tag parts without effect on the stored values (type:varchar(n), comment:…, precision:…)
 	DistinctValue bool     // values of this column must be pairwise distinct (unique / key)
+	ValuesNotNull bool     // generator hint: values are never NULL (a later model version declares the column not null)
 
 	// embedded struct
 	Embedded *StructSpec
